@@ -18,13 +18,18 @@ CONSTANT PresetName
 P == Preset(PresetName)
 Cases == ndJsonDeserialize("cases.ndjson")
 
+\* the sub-schema / sub-value reached by a path of (1-based) container field positions
+RECURSIVE SubSchema(_, _), SubValue(_, _)
+SubSchema(s, path) == IF path = <<>> THEN s ELSE SubSchema(s[2][path[1]][2], Tail(path))
+SubValue(v, path) == IF path = <<>> THEN v ELSE SubValue(v[path[1]], Tail(path))
+
 Eval(c) ==
     LET s   == SchemaOf(P, c.t)
         v   == c.v
         ser == Ser(s, v)
     IN IF c.ol
        THEN [id |-> c.id, t |-> c.t, ol |-> TRUE, ser |-> ser, fixed |-> FixedLen(s), isfixed |-> IsFixed(s),
-             plan |-> <<>>, json |-> <<>>, mal |-> <<>>, ncand |-> 0,
+             plan |-> <<>>, subplan |-> <<>>, json |-> <<>>, mal |-> <<>>, ncand |-> 0,
              olwhy |-> IF ValidEncoding(s, ser) THEN "" ELSE Dec(s, ser)[2], olpath |-> c.olpath,
              selfok |-> ~WellFormed(s, v) /\ ~ValidEncoding(s, ser)]
        ELSE LET plan == Plan(s, v)
@@ -33,7 +38,11 @@ Eval(c) ==
                 mal  == SelectSeq([k \in 1..Len(cand) |-> IF why[k][1] THEN <<>> ELSE <<cand[k][1], cand[k][2], why[k][2]>>],
                                   LAMBDA x : x # <<>>)
             IN [id |-> c.id, t |-> c.t, ol |-> FALSE, ser |-> ser, fixed |-> FixedLen(s), isfixed |-> IsFixed(s),
-                plan |-> plan, json |-> JsonTree(s, v), mal |-> mal, ncand |-> Len(cand), olwhy |-> "", olpath |-> "",
+                plan |-> plan,
+                \* merkle plan of one designated field (block message, execution payload): the oracle for the
+                \* root-preserving conversions (SignedHeader, Shallow)
+                subplan |-> IF c.sub = <<>> THEN <<>> ELSE Plan(SubSchema(s, c.sub), SubValue(v, c.sub)),
+                json |-> JsonTree(s, v), mal |-> mal, ncand |-> Len(cand), olwhy |-> "", olpath |-> "",
                 selfok |-> /\ WellFormed(s, v)
                            /\ Dec(s, ser) = <<TRUE, v>>
                            /\ PlanWellFormed(plan)
